@@ -252,14 +252,9 @@ func checkQuasi(e *rt, t *tpl) (src, verdict, expected, got string, res result) 
 		} else if res.Raw != expected {
 			got = res.Raw
 		}
-	case "error":
-		expected = "an error"
-		if !res.IsErr {
-			got = res.Raw
-		}
 	case "unspecified":
 		expected = "anything but a Go panic"
-		if res.IsErr && res.Cond == "<go-panic>" {
+		if res.isPanic() {
 			got = res.full()
 		}
 	}
@@ -307,11 +302,9 @@ func quasiClass(t *tpl, verdict string, res result) string {
 	out := "wrong-tree"
 	if res.IsErr {
 		out = "unexpected-error"
-		if res.Cond == "<go-panic>" {
+		if res.isPanic() {
 			out = "go-panic"
 		}
-	} else if verdict == "error" {
-		out = "missing-error"
 	}
 	if len(feats) == 0 {
 		feats = []string{"literal-only"}
@@ -331,7 +324,7 @@ func runQuasi(r *core.Run) {
 			return
 		}
 		r.Bound("quasi_"+g.name, g.describe())
-		var nontriv, verdOK, verdErr, verdUnspec int64
+		var nontriv, verdOK, verdUnspec int64
 		core.ParallelRange(r, g.total(), func(int) *rt { return newRT() }, func(e *rt, i int64) {
 			t := g.unrank(g.depth, i)
 			src, verdict, expected, got, res := checkQuasi(e, t)
@@ -341,8 +334,6 @@ func runQuasi(r *core.Run) {
 			switch verdict {
 			case "ok":
 				atomic.AddInt64(&verdOK, 1)
-			case "error":
-				atomic.AddInt64(&verdErr, 1)
 			default:
 				atomic.AddInt64(&verdUnspec, 1)
 			}
@@ -367,11 +358,8 @@ func runQuasi(r *core.Run) {
 			})
 		})
 		r.AddStates(g.total())
-		r.Extra("quasi_"+g.name+"_counts", map[string]int64{"templates": g.total(), "nontrivial": nontriv, "reference_ok": verdOK, "reference_error": verdErr, "reference_unspecified": verdUnspec})
+		r.Extra("quasi_"+g.name+"_counts", map[string]int64{"templates": g.total(), "nontrivial": nontriv, "reference_ok": verdOK, "reference_unspecified": verdUnspec})
 		r.Outcome("quasi:" + g.name + ":ref-ok")
-		if verdErr > 0 {
-			r.Outcome("quasi:" + g.name + ":ref-error")
-		}
 		if verdUnspec > 0 {
 			r.Outcome("quasi:" + g.name + ":ref-unspecified")
 		}
@@ -393,9 +381,7 @@ func replayQuasi(k kase) (bool, string) {
 	switch {
 	case strings.HasPrefix(k.Expect, "ok "):
 		return res.IsErr || res.Raw != strings.TrimPrefix(k.Expect, "ok "), rep
-	case strings.HasPrefix(k.Expect, "error"):
-		return !res.IsErr, rep
 	default:
-		return res.IsErr && res.Cond == "<go-panic>", rep
+		return res.isPanic(), rep
 	}
 }
